@@ -173,6 +173,14 @@ def _pick_names(rng, pool, n, taken):
             rest = [q for q in out if q not in pair]
             out = (pair + rest)[:n]
             rng.shuffle(out)
+    if n >= 2 and rng.random() < 0.15:
+        # numbered names whose numeric order and string order disagree (wheel_2 / wheel_10, q9 / q10)
+        base = rng.choice(["wheel_", "q", "m", "node"])
+        lo, hi = rng.choice([(2, 10), (9, 10), (3, 12), (7, 11)])
+        pair = [f"{base}{lo}", f"{base}{hi}"]
+        if not any(q in taken or q in out for q in pair):
+            out = pair + out[2:]
+            rng.shuffle(out)
     taken.update(out)
     return out
 
